@@ -194,7 +194,14 @@ func runC13(c *Ctx) {
 	c.Rule("C13.T4", "GATE", "canonical form: when (*Trie).delete collapses a branch with one remaining child into a one-nibble short node that keeps the child as its value, every path to that return either has the remaining entry at the value slot (pos == 16) or has tested the RESOLVED child (the result of t.resolve) not to be a short node — otherwise a shortNode{…, shortNode{…}} is built and the root depends on history")
 	c.Min(1)
 	del := w.Fn("trie", "Trie", "delete")
-	resolveObj := w.FuncObj("trie", "Trie", "resolve")
+	// the loader of an unloaded child: t.resolve, or resolveHash if resolve was inlined away; if neither is called
+	// before the short-node test the rule below reports the collapse
+	var resolveObj *types.Func
+	if rf := w.FnOpt("trie", "Trie", "resolve"); rf != nil {
+		resolveObj = rf.Object().(*types.Func)
+	} else {
+		resolveObj = w.FuncObj("trie", "Trie", "resolveHash")
+	}
 	nT4 := 0
 	for _, b := range del.Blocks {
 		r, ok := b.Instrs[len(b.Instrs)-1].(*ssa.Return)
